@@ -115,6 +115,77 @@ theorem C11_layerB_put_then_delete_partial {cfg : Cfg} {now : Nat} {seeds : List
         · cases e
         · exact Or.inr ⟨ho, hres⟩
 
+/-! ## C11: one client's commands are enqueued, executed and answered in the order of its calls -/
+
+/-- **C11 (submission order, per client).**  ANY run from a reachable state.  Client `i` makes the call `reqA` (issued at
+    `nA`, returns at `rA` with the pending acknowledgement `hA`: its command was enqueued) and the call `reqB` (issued at
+    `nB`, returns at `rB` with the pending acknowledgement `hB`), `reqA` FIRST (`nA < nB`).  Then
+    * the second call was issued only after the first had returned (`rA < nB`): a client thread runs one call at a time;
+    * each call returned from its `cmd.send`, which put its command at the TAIL of the queue (`Sent`), with the next free
+      handle — and `hA < hB`;
+    * in EVERY state of the history the handles waiting in the queue are strictly increasing from head to tail: while
+      both commands wait, A's is AHEAD of B's (with `C11_layerB_queue_step`: sends at the tail, takes at the head —
+      and `C11_layerB_fifo`: the worker takes exactly in that order);
+    * in every state after `rB`: if the worker holds B's command or has answered it, A's is ANSWERED — executed and
+      answered in the order of the calls.
+    No side condition: a dying worker answers neither (both stay pending), a draining worker answers both, in order. -/
+theorem C11_layerB_queue_order_is_issue_order_per_client {cfg : Cfg} {now : Nat} {seeds : List Nat} {clients : Nat}
+    {b0 b : BState} {h : List (BState × Act)} (hr0 : Reach cfg now seeds clients b0) (hrun : RunH b0 h b)
+    {i nA rA nB rB hA hB : Nat} {reqA reqB : Req}
+    (hissA : Issued h i reqA nA) (hretA : Returned h b i rA (.ack hA .pending)) (hltA : nA < rA)
+    (hsameA : ∀ q r, nA < q → q < rA → ¬ Issued h i r q)
+    (hissB : Issued h i reqB nB) (hretB : Returned h b i rB (.ack hB .pending)) (hltB : nB < rB) (hAB : nA < nB) :
+    rA < nB ∧ hA < hB ∧ ∃ cA cB, Sent h b i rA cA hA ∧ Sent h b i rB cB hB ∧
+      ∀ m s, StateAt h b m s →
+        (qHandles s.g.queue).Pairwise (· < ·) ∧
+        (rB < m → (s.w.held = some hB ∨ Answered s hB) → Answered s hA) := by
+  have _ := hissA
+  -- a client's second call is issued only after its first returned
+  have h1 : rA < nB := by
+    rcases Nat.lt_trichotomy nB rA with hlt | heq | hgt
+    · exact absurd hissB (hsameA nB reqB hAB hlt)
+    · exfalso
+      obtain ⟨s, hx⟩ := hissB
+      obtain ⟨s0, _, hx0, _⟩ := hretA
+      rw [heq] at hx
+      have := hx.inj hx0
+      cases this
+    · exact hgt
+  obtain ⟨cA, hsA⟩ := returned_sent hrun hretA
+  obtain ⟨cB, hsB⟩ := returned_sent hrun hretB
+  obtain ⟨sA, sA', hxA, hstA', hpcA, hhA, hqA, haA⟩ := hsA
+  obtain ⟨sB, sB', hxB, hstB', hpcB, hhB, hqB, haB⟩ := hsB
+  have hstB : StateAt h b rB sB := Or.inr ⟨_, hxB⟩
+  -- the handles
+  have h2 : hA < hB := by
+    have := acks_mono hr0 hrun hstA' (rB - (rA + 1)) sB (by rw [show rA + 1 + (rB - (rA + 1)) = rB by omega]; exact hstB)
+    rw [haA] at this
+    simp only [List.length_append, List.length_singleton] at this
+    omega
+  refine ⟨h1, h2, cA, cB, ⟨sA, sA', hxA, hstA', hpcA, hhA, hqA, haA⟩, ⟨sB, sB', hxB, hstB', hpcB, hhB, hqB, haB⟩, ?_⟩
+  intro m s hst
+  refine ⟨qsorted_reach (stateAt_reach hr0 hrun hst), ?_⟩
+  intro hm hB'
+  -- A's command lives: from `rA + 1` on
+  have lifeA : ∀ d s, StateAt h b (rA + 1 + d) s → LifeOf hA s :=
+    run_induct hr0 hrun (LifeOf hA) (fun s s' a o o' hr hl hs => lifeOf_step (hinv_reach hr) hl hs) hstA'
+      (Or.inl (by rw [hqA, qHandles_append_one]; simp))
+  -- B's command is neither held nor answered while A's is not answered: from `rB + 1` on
+  have hinvB' := hinv_reach (stateAt_reach hr0 hrun hstB')
+  have hBq : hB ∈ qHandles sB'.g.queue := by rw [hqB, qHandles_append_one]; simp
+  have bef : ∀ d s, StateAt h b (rB + 1 + d) s → LifeOf hA s ∧ Before hA hB s := by
+    refine run_induct hr0 hrun (fun s => LifeOf hA s ∧ Before hA hB s) ?_ hstB' ⟨?_, ?_⟩
+    · intro s s' a o o' hr ⟨hl, hbf⟩ hs
+      exact ⟨lifeOf_step (hinv_reach hr) hl hs, before_step h2 (hinv_reach hr) (qsorted_reach hr) hl hbf hs⟩
+    · exact lifeA (rB - rA) sB' (by rw [show rA + 1 + (rB - rA) = rB + 1 by omega]; exact hstB')
+    · exact Or.inr ⟨hinvB'.queued hB hBq, fun e => (hinvB'.held hB e).2 hBq⟩
+  obtain ⟨_, hbf⟩ := bef (m - (rB + 1)) s (by rw [show rB + 1 + (m - (rB + 1)) = m by omega]; exact hst)
+  rcases hbf with hans | ⟨hp, hnh⟩
+  · exact hans
+  · rcases hB' with e | ⟨st, hst', hne⟩
+    · exact absurd e hnh
+    · rw [hp] at hst'; cases hst'; exact absurd rfl hne
+
 /-! ## concrete runs: three clients (`cfgEx`: capacity 10, one expiry shard, command queue of 4) -/
 
 namespace PD
